@@ -50,6 +50,9 @@ pub enum RouterError {
     InvalidClientId(String),
     #[error("Disconnection (Reason: {0:?})")]
     Disconnect(DisconnectReasonCode),
+    #[cfg(feature = "verif-hooks")]
+    #[error("verif: router would block")]
+    VerifWouldBlock,
 }
 
 // TODO: set this to some appropriate value
@@ -102,6 +105,12 @@ pub struct Router {
     shared_subscriptions: HashMap<String, SharedGroup>,
     /// Will messages per client_id
     last_wills: HashMap<String, (LastWill, Option<LastWillProperties>)>,
+    #[cfg(feature = "verif-hooks")]
+    verif_stepping: bool,
+    #[cfg(feature = "verif-hooks")]
+    verif_counters: crate::verif::Counters,
+    #[cfg(feature = "verif-hooks")]
+    verif_idle: std::sync::Arc<crate::verif::IdleMarker>,
 }
 
 impl Router {
@@ -143,6 +152,180 @@ impl Router {
             cache: Some(VecDeque::with_capacity(MAX_CHANNEL_CAPACITY)),
             shared_subscriptions: HashMap::new(),
             last_wills: HashMap::new(),
+            #[cfg(feature = "verif-hooks")]
+            verif_stepping: false,
+            #[cfg(feature = "verif-hooks")]
+            verif_counters: Default::default(),
+            #[cfg(feature = "verif-hooks")]
+            verif_idle: Default::default(),
+        }
+    }
+
+    #[cfg(feature = "verif-hooks")]
+    pub fn verif_stepping(&mut self, on: bool) {
+        self.verif_stepping = on;
+    }
+
+    #[cfg(feature = "verif-hooks")]
+    pub fn verif_link(&self) -> Sender<(ConnectionId, Event)> {
+        self.link()
+    }
+
+    /// One production turn; Ok(true) = made a turn, Ok(false) = would block
+    #[cfg(feature = "verif-hooks")]
+    pub fn verif_turn(&mut self) -> Result<bool, RouterError> {
+        match self.run_inner() {
+            Ok(()) => Ok(true),
+            Err(RouterError::VerifWouldBlock) => Ok(false),
+            Err(e) => Err(e),
+        }
+    }
+
+    #[cfg(feature = "verif-hooks")]
+    pub fn verif_event_step(&mut self) -> bool {
+        match self.router_rx.try_recv() {
+            Ok((id, data)) => {
+                self.events(id, data);
+                true
+            }
+            Err(_) => false,
+        }
+    }
+
+    #[cfg(feature = "verif-hooks")]
+    pub fn verif_consume_step(&mut self) -> bool {
+        self.consume().is_some()
+    }
+
+    #[cfg(feature = "verif-hooks")]
+    pub fn verif_idle(&self) -> std::sync::Arc<crate::verif::IdleMarker> {
+        self.verif_idle.clone()
+    }
+
+    #[cfg(feature = "verif-hooks")]
+    fn verif_count(&mut self, data: &Event) {
+        let c = &mut self.verif_counters;
+        match data {
+            Event::Connect { .. } => c.connect += 1,
+            Event::DeviceData => c.device_data += 1,
+            Event::Ready => c.ready += 1,
+            Event::Disconnect => c.disconnect += 1,
+            Event::PublishWill(_) => c.publish_will += 1,
+            _ => c.other += 1,
+        }
+    }
+
+    /// Read-only copy of the routing state as plain data
+    #[cfg(feature = "verif-hooks")]
+    pub fn verif_snapshot(&self) -> crate::verif::RouterSnapshot {
+        use crate::verif::*;
+        let connections = self
+            .connections
+            .iter()
+            .map(|(id, c)| {
+                let mut subscriptions: Vec<_> = c.subscriptions.iter().cloned().collect();
+                subscriptions.sort();
+                let tracker = self.scheduler.trackers.get(id);
+                let status = match tracker.map(|t| t.status) {
+                    Some(super::scheduler::Status::Ready) => "Ready".to_owned(),
+                    Some(super::scheduler::Status::Paused(r)) => format!("{r:?}"),
+                    None => "NoTracker".to_owned(),
+                };
+                let data_requests = tracker
+                    .map(|t| {
+                        t.data_requests
+                            .iter()
+                            .map(|r| RequestSnapshot {
+                                filter: r.filter.clone(),
+                                filter_idx: r.filter_idx,
+                                qos: r.qos,
+                                cursor: r.cursor,
+                                forward_retained: r.forward_retained,
+                                group: r.group.clone(),
+                            })
+                            .collect()
+                    })
+                    .unwrap_or_default();
+                let (inflight, last_pkid, unacked_pubrels, outgoing_len) = self
+                    .obufs
+                    .get(id)
+                    .map(|o| {
+                        let (ids, last) = o.verif_inflight();
+                        let rels = o.unacked_pubrels.iter().copied().collect();
+                        (ids, last, rels, o.data_buffer.lock().len())
+                    })
+                    .unwrap_or_default();
+                let (pending_acks, recorded_qos2) =
+                    self.ackslog.get(id).map(|a| a.verif_lens()).unwrap_or((0, 0));
+                let incoming_len = self.ibufs.get(id).map(|i| i.buffer.lock().len()).unwrap_or(0);
+                ConnectionSnapshot {
+                    id,
+                    client_id: c.client_id.clone(),
+                    clean: c.clean,
+                    subscriptions,
+                    status,
+                    data_requests,
+                    inflight,
+                    last_pkid,
+                    unacked_pubrels,
+                    pending_acks,
+                    recorded_qos2,
+                    outgoing_len,
+                    incoming_len,
+                }
+            })
+            .collect();
+
+        let mut connection_map: Vec<_> =
+            self.connection_map.iter().map(|(k, v)| (k.clone(), *v)).collect();
+        connection_map.sort();
+        let mut subscription_map: Vec<_> = self
+            .subscription_map
+            .iter()
+            .map(|(k, v)| {
+                let mut ids: Vec<_> = v.iter().copied().collect();
+                ids.sort();
+                (k.clone(), ids)
+            })
+            .collect();
+        subscription_map.sort();
+        let mut groups: Vec<_> = self
+            .shared_subscriptions
+            .iter()
+            .map(|(name, g)| {
+                let (members, turn) = g.verif_members();
+                GroupSnapshot {
+                    name: name.clone(),
+                    members,
+                    turn,
+                    cursor: g.cursor,
+                }
+            })
+            .collect();
+        groups.sort_by(|a, b| a.name.cmp(&b.name));
+        let mut wills: Vec<_> = self.last_wills.keys().cloned().collect();
+        wills.sort();
+
+        RouterSnapshot {
+            connections,
+            readyqueue: self.scheduler.readyqueue.iter().copied().collect(),
+            connection_map,
+            subscription_map,
+            slab_keys: [
+                self.connections.iter().map(|(k, _)| k).collect(),
+                self.ibufs.iter().map(|(k, _)| k).collect(),
+                self.obufs.iter().map(|(k, _)| k).collect(),
+                self.ackslog.iter().map(|(k, _)| k).collect(),
+                self.scheduler.trackers.iter().map(|(k, _)| k).collect(),
+            ],
+            graveyard: self.graveyard.verif_keys(),
+            groups,
+            retained: self.datalog.verif_retained(),
+            wills,
+            logs: self.datalog.verif_logs(),
+            parked_notifications: self.notifications.len(),
+            total_connections: self.router_meters.total_connections,
+            counters: self.verif_counters.clone(),
         }
     }
 
@@ -195,8 +378,20 @@ impl Router {
     fn run_inner(&mut self) -> Result<(), RouterError> {
         // Block on incoming events if there are no ready connections for consumption
         if self.consume().is_none() {
+            #[cfg(feature = "verif-hooks")]
+            if self.verif_stepping && self.router_rx.is_empty() {
+                return Err(RouterError::VerifWouldBlock);
+            }
+            #[cfg(feature = "verif-hooks")]
+            self.verif_idle
+                .blocked
+                .store(true, std::sync::atomic::Ordering::SeqCst);
             // trace!("{}:: {:20} {:20} {:?}", self.id, "", "done-await", self.readyqueue);
             let (id, data) = self.router_rx.recv()?;
+            #[cfg(feature = "verif-hooks")]
+            self.verif_idle
+                .blocked
+                .store(false, std::sync::atomic::Ordering::SeqCst);
             self.events(id, data);
         }
 
@@ -228,12 +423,21 @@ impl Router {
         }
 
         // self.send_all_alerts();
+        #[cfg(feature = "verif-hooks")]
+        self.verif_idle
+            .turns
+            .fetch_add(1, std::sync::atomic::Ordering::SeqCst);
         Ok(())
     }
 
     fn events(&mut self, id: ConnectionId, data: Event) {
         let span = tracing::error_span!("[>] incoming", connection_id = id);
         let _guard = span.enter();
+
+        #[cfg(feature = "verif-hooks")]
+        self.verif_count(&data);
+        #[cfg(feature = "verif-hooks")]
+        let _handled = VerifHandled(self.verif_idle.clone());
 
         match data {
             Event::Connect {
@@ -261,6 +465,10 @@ impl Router {
                 #[cfg(feature = "validate-tenant-prefix")]
                 _tenant_id,
             ),
+            #[cfg(feature = "verif-hooks")]
+            Event::VerifSnapshot(reply) => {
+                reply.try_send(self.verif_snapshot()).ok();
+            }
         }
     }
 
@@ -996,6 +1204,10 @@ impl Router {
     /// all the requests are handled.
     fn consume(&mut self) -> Option<()> {
         let (id, mut requests) = self.scheduler.poll()?;
+        #[cfg(feature = "verif-hooks")]
+        {
+            self.verif_counters.consumes += 1;
+        }
 
         let span = tracing::info_span!("[<] outgoing", connection_id = id);
         let _guard = span.enter();
@@ -1392,6 +1604,19 @@ fn ack_device_data(ackslog: &mut AckLog, outgoing: &mut Outgoing) -> bool {
     debug!(acks_count = count, "Acks sent to device");
     outgoing.handle.try_send(()).ok();
     true
+}
+
+/// Counts an event as handled when `Router::events` returns (or unwinds)
+#[cfg(feature = "verif-hooks")]
+struct VerifHandled(std::sync::Arc<crate::verif::IdleMarker>);
+
+#[cfg(feature = "verif-hooks")]
+impl Drop for VerifHandled {
+    fn drop(&mut self) {
+        self.0
+            .events_handled
+            .fetch_add(1, std::sync::atomic::Ordering::SeqCst);
+    }
 }
 
 enum ConsumeStatus {
